@@ -320,4 +320,28 @@ theorem toUInt64_of_fin (x : F64) (s : Bool) (m : Nat) (e : Int) (h : x.val = .f
     rw [this]
     decide
 
+/-- below the bits of ∞ the decoded value is finite -/
+theorem roundNE_val_fin (s : Bool) (n d : Nat) (h : magOf n d < infMag) :
+    ∃ m e, (roundNE s n d).val = .fin s m e := by
+  rcases roundNE_val s n d with hv | ⟨m, e, hv, _⟩
+  · exfalso
+    rw [infMag_eq] at h
+    unfold roundNE F64.val at hv
+    simp only [BitVec.toNat_ofNat] at hv
+    generalize magOf n d = M at h hv
+    cases s
+    · simp only [Bool.false_eq_true, if_false, Nat.add_zero] at hv
+      have hM : M % 2 ^ 64 = M := Nat.mod_eq_of_lt (by omega)
+      rw [hM] at hv
+      have hex : ¬ (M / 2 ^ 52 % 2048 = 2047) := by omega
+      simp only [hex, if_false] at hv
+      split at hv <;> cases hv
+    · simp only [if_true] at hv
+      have hM : (M + 2 ^ 63) % 2 ^ 64 = M + 2 ^ 63 := Nat.mod_eq_of_lt (by omega)
+      rw [hM] at hv
+      have hex : ¬ ((M + 2 ^ 63) / 2 ^ 52 % 2048 = 2047) := by omega
+      simp only [hex, if_false] at hv
+      split at hv <;> cases hv
+  · exact ⟨m, e, hv⟩
+
 end Verif.Lemmas.F64
